@@ -1,6 +1,6 @@
 (* C19 — correspondence: what the harness observed on the implementation against the model and the specification *)
 From Coq Require Import List String ZArith Bool Ascii NArith.
-From C19 Require Import Model Spec.
+From C19 Require Import Model Spec Lex.
 Import ListNotations.
 Open Scope string_scope.
 Open Scope list_scope.
@@ -14,11 +14,32 @@ Inductive case :=
 
 Definition is_unmodelled {A} (r : res A) : bool := match r with Err EUnmodelled => true | _ => false end.
 
+(* The texts: the first one (margin 0) is the plain printer's one-line rendering of the form; every pretty-printed
+   rendering at a margin 20..120 must read to the same s-expression as it (verified checker,
+   LexProofs.same_reading_sound: both texts lex and parse, and the readings agree up to 'x = (quote x), () = nil)
+   and must evaluate to the same object.
+   pp_guard: pp/quote.go:42 Quote.setLeft does not move its child, so a quoted list keeps the column it had in the
+   unbroken layout; when that column is 255 or more, breaking the list slices the 257-byte indent string out of
+   range [C19-pp-quote-indent]. The column in the unbroken layout is at most the column in the plain one-line text. *)
+Definition wide_text (texts : list (N * tobs)) : option string :=
+  match texts with (_, TText w _ _) :: _ => Some w | _ => None end.
+Definition texts_ok (texts : list (N * tobs)) : bool :=
+  match wide_text texts with
+  | None => false
+  | Some w =>
+      let lw := list_ascii_of_string w in
+      forallb (fun mt => match snd mt with
+                         | TText t _ es => es && same_reading lw (list_ascii_of_string t)
+                         | TErr _ => false
+                         end) texts
+  end.
+Definition pp_guard (texts : list (N * tobs)) : bool :=
+  match wide_text texts with Some w => negb (far_quote_text (list_ascii_of_string w)) | None => true end.
+
 (* does the OBSERVED behaviour meet S for this value? *)
 Definition obs_meets_spec (v : obj) (r : robs) (equal : bool) (texts : list (N * tobs)) : bool :=
   match r with
-  | ROk y => obj_eqb v y && (equal || has_lambda v)
-             && forallb (fun mt => match snd mt with TText _ re es => es | TErr _ => false end) texts
+  | ROk y => obj_eqb v y && (equal || has_lambda v) && (texts_ok texts || negb (pp_guard texts))
   | _ => false
   end.
 
@@ -59,6 +80,8 @@ Fixpoint check_all_from (i : N) (cs : list case) : list (N * N) :=
   end.
 Definition check_all := check_all_from 0%N.
 
+Definition far_quote_count (cs : list case) : N :=
+  N.of_nat (List.length (filter (fun c => match c with DCase _ _ _ _ texts => negb (pp_guard texts) end) cs)).
 Definition guarded (c : case) : bool := match c with DCase v FNone _ _ _ => false | DCase v _ _ _ _ => loadable v end.
 Definition guard_count (cs : list case) : N := N.of_nat (List.length (filter guarded cs)).
 Definition unmodelled_count (cs : list case) : N :=
